@@ -215,7 +215,10 @@ class ElfWriter:
 
         # Write sections contained in images:
         for image in self.obj.images:
+            # A loadable segment must have congruent values for its
+            # file offset and virtual address, modulo the page size.
             self.align_to(self.page_size)
+            self.f.write(bytes(image.address % self.page_size))
             file_offset = self.f.tell()
 
             for section in image.sections:
